@@ -32,6 +32,27 @@ let rec app l m =
   | [] -> m
   | a :: l1 -> a :: (app l1 m)
 
+module Coq__1 = struct
+ (** val add : nat -> nat -> nat **)
+ let rec add n0 m =
+   match n0 with
+   | O -> m
+   | S p -> S (add p m)
+end
+include Coq__1
+
+module Nat =
+ struct
+  (** val min : nat -> nat -> nat **)
+
+  let rec min n0 m =
+    match n0 with
+    | O -> O
+    | S n' -> (match m with
+               | O -> O
+               | S m' -> S (min n' m'))
+ end
+
 (** val existsb : ('a1 -> bool) -> 'a1 list -> bool **)
 
 let rec existsb f = function
@@ -43,6 +64,24 @@ let rec existsb f = function
 let rec filter f = function
 | [] -> []
 | x :: l0 -> if f x then x :: (filter f l0) else filter f l0
+
+(** val firstn : nat -> 'a1 list -> 'a1 list **)
+
+let rec firstn n0 l =
+  match n0 with
+  | O -> []
+  | S n1 -> (match l with
+             | [] -> []
+             | a :: l0 -> a :: (firstn n1 l0))
+
+(** val skipn : nat -> 'a1 list -> 'a1 list **)
+
+let rec skipn n0 l =
+  match n0 with
+  | O -> l
+  | S n1 -> (match l with
+             | [] -> []
+             | _ :: l0 -> skipn n1 l0)
 
 type positive =
 | XI of positive
@@ -189,6 +228,19 @@ module Coq_Pos =
              | XH -> true
              | _ -> false)
 
+  (** val iter_op : ('a1 -> 'a1 -> 'a1) -> positive -> 'a1 -> 'a1 **)
+
+  let rec iter_op op0 p a =
+    match p with
+    | XI p0 -> op0 a (iter_op op0 p0 (op0 a a))
+    | XO p0 -> iter_op op0 p0 (op0 a a)
+    | XH -> a
+
+  (** val to_nat : positive -> nat **)
+
+  let to_nat x =
+    iter_op Coq__1.add x (S O)
+
   (** val of_succ_nat : nat -> positive **)
 
   let rec of_succ_nat = function
@@ -230,6 +282,12 @@ module N =
     | Npos p -> (match m with
                  | N0 -> false
                  | Npos q0 -> Coq_Pos.eqb p q0)
+
+  (** val to_nat : n -> nat **)
+
+  let to_nat = function
+  | N0 -> O
+  | Npos p -> Coq_Pos.to_nat p
 
   (** val of_nat : nat -> n **)
 
@@ -683,6 +741,47 @@ let try_recv_core s =
     ((wake_one_send (with_recvd (app s.recvd (v :: [])) (with_q t s))),
       (TrVal v))
 
+(** val skip_nw : (n -> fut option) -> (n * n) list -> (n * n) list **)
+
+let rec skip_nw g l = match l with
+| [] -> []
+| p :: t ->
+  let (f, _) = p in
+  (match g f with
+   | Some x -> if is_waiting x.f_state then l else skip_nw g t
+   | None -> skip_nw g t)
+
+(** val hand_one_recv : st -> st **)
+
+let hand_one_recv s =
+  wake_one_recv (with_arq (skip_nw (fun f -> getF f s) s.arq) s)
+
+(** val send_loop : n list -> st -> st * n list **)
+
+let rec send_loop vs s =
+  match vs with
+  | [] -> (s, [])
+  | v :: r ->
+    if is_full s then (s, vs) else send_loop r (push v (hand_one_recv s))
+
+(** val wake_senders : nat -> st -> st **)
+
+let rec wake_senders n0 s =
+  match n0 with
+  | O -> s
+  | S k -> wake_senders k (wake_one_send s)
+
+(** val drain : nat -> st -> st **)
+
+let drain k s =
+  with_recvd (app s.recvd (firstn k s.q)) (with_q (skipn k s.q) s)
+
+(** val seqN : n -> nat -> n list **)
+
+let rec seqN a = function
+| O -> []
+| S k -> a :: (seqN (N.add a (Npos XH)) k)
+
 type res =
 | ROk
 | RFull of n
@@ -707,6 +806,12 @@ type res =
 | RReadyDisc
 | RObs of n * bool * bool * n * bool
 | RPanic
+| RBOk of n
+| RBErr of n * bool * n list
+| RMOk of n * n list
+| RMClosed of n list
+| RVals of n list
+| RNVals of n list
 
 type out = { o_res : res; o_wakes : n list; o_drops : n list; o_bad : bool }
 
@@ -725,6 +830,8 @@ type op =
 | MkRecv of n * n
 | Poll of n * n
 | DropF of n
+| TrySendBatch of bool * n * n
+| TryRecvBatch of bool * n * n
 
 (** val close_tx : st -> st option **)
 
@@ -1124,7 +1231,67 @@ let step s0 o =
                       | None -> s2
              in
              ret s3 ROk
-      | None -> ret s RNoFut))
+      | None -> ret s RNoFut)
+   | TrySendBatch (inplace, h, n0) ->
+     (match getH h s with
+      | Some x ->
+        if negb x.h_live
+        then ret s RNoHandle
+        else if negb x.h_tx
+             then ret s RWrongKind
+             else let vs = seqN s.next (N.to_nat n0) in
+                  let s1 = with_next (N.add s.next n0) s in
+                  let fail = fun closed sent un s2 ->
+                    let s3 = with_back (app s2.back un) s2 in
+                    if inplace
+                    then if (&&) closed (N.eqb sent N0)
+                         then ret s3 (RMClosed un)
+                         else ret s3 (RMOk (sent, un))
+                    else ret s3 (RBErr (sent, closed, un))
+                  in
+                  if N.eqb n0 N0
+                  then ret s1 (if inplace then RMOk (N0, []) else RBOk N0)
+                  else if x.h_closed
+                       then fail true N0 vs s1
+                       else if N.eqb s1.rc N0
+                            then fail true N0 vs s1
+                            else let (s2, un) = send_loop vs s1 in
+                                 (match un with
+                                  | [] ->
+                                    ret s2
+                                      (if inplace
+                                       then RMOk (n0, [])
+                                       else RBOk n0)
+                                  | _ :: _ ->
+                                    fail false
+                                      (N.sub n0 (N.of_nat (length un))) un s2)
+      | None -> ret s RNoHandle)
+   | TryRecvBatch (inplace, h, m) ->
+     (match getH h s with
+      | Some x ->
+        if negb x.h_live
+        then ret s RNoHandle
+        else if x.h_tx
+             then ret s RWrongKind
+             else if N.eqb m N0
+                  then ret s (if inplace then RNVals [] else RVals [])
+                  else if x.h_closed
+                       then ret s RDisc
+                       else let k = Nat.min (N.to_nat m) (length s.q) in
+                            (match k with
+                             | O ->
+                               if N.eqb s.sc N0
+                               then ret s RDisc
+                               else ret s REmpty
+                             | S _ ->
+                               let items = firstn k s.q in
+                               let s1 = wake_senders (N.to_nat m) (drain k s)
+                               in
+                               ret s1
+                                 (if inplace
+                                  then RNVals items
+                                  else RVals items))
+      | None -> ret s RNoHandle))
 
 (** val init : n -> bool -> fixes -> st **)
 
